@@ -13,7 +13,10 @@ ENUMS = [{'a': 1, 'b': 2}, {'off': 0, 'on': 1}, {'x': -3, 'y': 100, 'z': 7}, {'s
          {'lo': -2147483648, 'hi': 2147483647}, {'n0': 0, 'n1': 1, 'n2': 2, 'n5': 5, 'big': 1 << 40},
          {'idle': 100, 'busy': 300, 'error': 400},
          # labels that look like numbers (gain / range selectors) and are the code of ANOTHER member
-         {'1': 0, '2': 1, '4': 2, '8': 3}, {'10': 1, '1': 10, 'x': 2}]
+         {'1': 0, '2': 1, '4': 2, '8': 3}, {'10': 1, '1': 10, 'x': 2},
+         # labels that are words of other notations (JSON, python)
+         {'true': 1, 'false': 0, 'null': 2}, {'None': 0, 'nan': 1, 'inf': 2}]
+WORDS = ['true', 'false', 'null', 'it is true', 'null ', 'None', 'True', 'nan', 'inf', '-inf', '1e5', "b'x'"]
 UNITS = ['', 'K', 'mbar/s', '$', '$/min', 'µm', 'm2', 'cm-1', '1/s', 'W/m2', 'e.']      # also units that end like a number
 ASCII_ALPHA = 'ab"\\\n\t xyz\'[](),{}:0159-.#'
 UTF_ALPHA = ASCII_ALPHA + 'äπ€𝄞é'
@@ -209,6 +212,12 @@ def gen_valid(di, rng, stored=False):
         n = rng.choice([lo, hi if hi <= lo + 300 else lo + 300, rng.randint(lo, min(hi, lo + 8))])
         alpha = UTF_ALPHA if di.get('isUTF8') else ASCII_ALPHA
         txt = ''.join(rng.choice(alpha) for _ in range(n))
+        if n >= 3 and rng.random() < 0.06:
+            # words of other notations inside a text are just text
+            fit = [w_ for w_ in WORDS if len(w_) <= n]
+            if fit:
+                w_ = rng.choice(fit)
+                txt = w_ + txt[len(w_):]
         if n >= 2 and rng.random() < 0.15:
             # white space at the ends belongs to the value
             ws = rng.choice([' ', '\n', '\t', '  '])[:1]
@@ -217,7 +226,10 @@ def gen_valid(di, rng, stored=False):
     if t == 'blob':
         lo, hi = di.get('minbytes', 0), di['maxbytes']
         n = rng.choice([lo, hi, rng.randint(lo, hi)])
-        if rng.random() < 0.2:
+        if n >= 4 and rng.random() < 0.05:
+            w_ = rng.choice([b'null', b'true', b'false', b'None'])[:n]
+            b = w_ + bytes(rng.randrange(256) for _ in range(n - len(w_))) if rng.random() < 0.5 else (w_ * n)[:n]
+        elif rng.random() < 0.2:
             b = bytes((i * 37 + n) % 256 for i in range(n))
         else:
             b = bytes(rng.randrange(256) for _ in range(n))
